@@ -15,7 +15,7 @@ import time
 import traceback
 
 VERIF = os.path.dirname(os.path.dirname(os.path.abspath(__file__)))
-EVIDENCE_DIR = os.path.join(VERIF, "evidence")
+EVIDENCE_DIR = os.environ.get("VERIF_EVIDENCE_DIR") or os.path.join(VERIF, "evidence")  # override: scratch runs against mutants
 VIOL_DIR = os.path.join(EVIDENCE_DIR, "violations")
 KNOWN_FILE = os.path.join(VERIF, "known_findings.json")
 
